@@ -49,6 +49,7 @@ inductive SV where
   | row (r : RowV)
   | rows (l : List RowV)
   | usage (fields : List (String × PySum.SV))   -- a `Usage(started=…, …)` namedtuple
+  | cv (impl version : Option String)           -- the `client_version` pair of a `bind`
   deriving Repr, DecidableEq
 
 def SV.ofCell : Cell → SV
@@ -68,6 +69,7 @@ def SV.toCell : SV → Cell
   | .row _ => .null
   | .rows _ => .null
   | .usage _ => .null
+  | .cv .. => .null
 
 inductive XE where
   | none_ | true_ | false_
@@ -75,6 +77,9 @@ inductive XE where
   | param (p : String)                 -- a parameter of the method
   | msgField (e : XE) (f : String)     -- sm.side / sm.phase / … of a SidedMessage
   | attr (e : XE) (f : String)         -- u.started / u.result / … of a Usage
+  | index (e : XE) (i : Nat)           -- client_version[0] / client_version[1]
+  | mul (a b : XE)
+  | floordiv (a b : XE)
   | var (v : String)                   -- a local
   | selfAttr (a : String)              -- self._app_id / self._mailbox_id / self._usage_db
   | field (e : XE) (col : String)      -- e["col"]
@@ -157,6 +162,19 @@ def truthy : SV → Bool
   | .row r => !r.toRow.isEmpty
   | .rows l => !l.isEmpty
   | .usage _ => true
+  | .cv .. => true
+
+def optStrSV : Option String → SV
+  | some x => .str x
+  | Option.none => .none
+
+/-- a string-or-None value -/
+def optOfSV : SV → Option (Option String)
+  | .none => some Option.none
+  | .str x => some (some x)
+  | _ => Option.none
+
+@[simp] theorem optOfSV_optStrSV (o : Option String) : optOfSV (optStrSV o) = some o := by cases o <;> rfl
 
 /-- a field of a `Usage` as a Python value -/
 def ofSummV : PySum.SV → SV
@@ -177,12 +195,23 @@ def eval (ctx : Ctx) (s : Sys) (env : Env) : XE → SV
   | .var v => (env.lookup v).getD .none
   | .selfAttr a =>
     if a = "_app_id" then .str ctx.app else if a = "_mailbox_id" then .str ctx.mailbox
-    else if a = "_usage_db" then .bool s.cfg.usage else .none
+    else if a = "_usage_db" then .bool s.cfg.usage
+    else if a = "_blur_usage" then (match s.blurTicks with | some B => .int B | Option.none => .none)   -- in ticks, like the times
+    else .none
   | .msgField e f => (match eval ctx s env e with
     | .msg side phase body rx id =>
       if f = "side" then .str side else if f = "phase" then .val phase else if f = "body" then .val body
       else if f = "server_rx" then .int rx else if f = "msg_id" then .val id else .none
     | _ => .none)
+  | .index e i => (match eval ctx s env e with
+    | .cv impl version => if i = 0 then optStrSV impl else if i = 1 then optStrSV version else .none
+    | _ => .none)
+  | .mul a b => (match eval ctx s env a, eval ctx s env b with
+    | .int x, .int y => .int (x * y)
+    | _, _ => .none)
+  | .floordiv a b => (match eval ctx s env a, eval ctx s env b with
+    | .int x, .int y => .int (x / y)
+    | _, _ => .none)
   | .attr e f => (match eval ctx s env e with
     | .usage u => (match u.lookup f with | some v => ofSummV v | Option.none => .none)
     | _ => .none)
@@ -215,6 +244,16 @@ def optRow (f : α → RowV) (o : Option α) : SV := match o with | some r => .r
 def asNat (i : Int) : Nat := i.toNat
 
 @[simp] theorem asNat_natCast (n : Nat) : asNat (n : Int) = n := by simp [asNat]
+
+/-- the INSERT of `log_client_version` -/
+def logClientStmt (s : Sys) (args : List SV) : ExecRes :=
+  match args with
+  | [.str app, .str side, .int t, i, v] =>
+    (match optOfSV i, optOfSV v with
+     | some impl, some version =>
+       .ok (s.modUdb (fun d => { d with clients := d.clients ++ [⟨app, side, t, impl, version⟩] })) .none
+     | _, _ => .raised s "TypeError")
+  | _ => .raised s "TypeError"
 
 /-- **the statement table**: the model primitive (Store.lean) each named statement of server.py is; a SELECT gives its
     row(s) (`fetchone()` of an empty result is `None`), an INSERT its `lastrowid` where the program uses it.
@@ -326,6 +365,7 @@ def stmtSem (s : Sys) (stmt : String) (args : List SV) : ExecRes :=
      | [.str app, .bool forNp, .int started, .int total, .int w, .str result] =>
        .ok (s.modUdb (fun d => { d with mailboxes := d.mailboxes ++ [⟨app, forNp, started, total, some w, result⟩] })) .none
      | _ => .raised s "TypeError")
+  else if stmt = "AppNamespace_log_client_version__insert_client_versions_0" then logClientStmt s args
   else .raised s "NotInTable"
 
 /-- what `cursor.<fetch>` of a statement's result is -/
